@@ -3,6 +3,16 @@
 // response line per request. A response may be followed by a TAB and one or more
 // "!PROP <Cxx> <what>" items: direct evaluations of a property on the real code that
 // failed for an input covered by the request (the "search" of DESIGN.md section 4).
+//
+// Two things about the process the library runs in are varied here, because a property that
+// holds "for every input" has to hold whatever the caller's process looks like:
+//
+//   - local time zone: a request may start with the token "@tz=<zone>"; the request is then
+//     answered with time.Local set to that zone (what a process started with TZ=<zone> sees);
+//   - concurrent callers: requests are read in windows; the requests of some windows are asked
+//     again from several goroutines at the same time, and every answer must be the one the same
+//     request got when it was asked alone. The first window of a process is asked concurrently
+//     BEFORE it is asked alone (a lazily built table is then first touched by several callers).
 package main
 
 import (
@@ -11,7 +21,11 @@ import (
 	"io"
 	"log"
 	"os"
+	"strconv"
 	"strings"
+	"sync"
+	"time"
+	_ "time/tzdata"
 )
 
 type handler func(args []string) (resp string, props []string)
@@ -28,33 +42,345 @@ func safeCall(h handler, args []string) (resp string, props []string) {
 	return h(args)
 }
 
+type job struct {
+	line  string
+	tz    string
+	toks  []string
+	resp  string
+	props []string
+	extra []string
+	ctx   int // number of zone headers answered before this request
+}
+
+var startLocal = time.Local
+var curTZ = ""
+var tzCache = map[string]*time.Location{}
+
+// setTZ makes the process's local zone the named one ("" = the zone the process started in)
+func setTZ(name string) bool {
+	if name == curTZ {
+		return true
+	}
+	if name == "" {
+		time.Local = startLocal
+		curTZ = ""
+		return true
+	}
+	loc, ok := tzCache[name]
+	if !ok {
+		l, err := time.LoadLocation(name)
+		if err != nil {
+			return false
+		}
+		loc = l
+		tzCache[name] = loc
+	}
+	time.Local = loc
+	curTZ = name
+	return true
+}
+
+func parseJob(line string) *job {
+	j := &job{line: line}
+	toks := strings.Split(line, " ")
+	if len(toks) > 0 && strings.HasPrefix(toks[0], "@tz=") {
+		j.tz = toks[0][4:]
+		toks = toks[1:]
+	}
+	j.toks = toks
+	return j
+}
+
+// answer one request on the calling goroutine (time.Local already set)
+func answer(toks []string) (string, []string) {
+	if len(toks) == 0 {
+		return "bad-request", nil
+	}
+	h, ok := handlers[toks[0]]
+	if !ok {
+		return "bad-request", nil
+	}
+	return safeCall(h, toks[1:])
+}
+
+// stormKey: requests with the same key may be asked at the same time from several goroutines —
+// they are answered by functions the library offers as plain functions of their arguments, and
+// they need the same process-wide configuration (calendar configuration, local zone, zone header).
+// "" = never asked concurrently (requests that change or depend on process state of the harness).
+func stormKey(j *job) string {
+	t := j.toks
+	if len(t) < 2 {
+		return ""
+	}
+	switch t[0] {
+	case "ival", "tod", "text", "misc":
+		return j.tz + "|" + t[0]
+	case "set":
+		if t[1] != "ops" { // "set ops …": one line builds its own sets from nothing
+			return ""
+		}
+		return j.tz + "|set"
+	case "rules":
+		if t[1] == "types" {
+			return ""
+		}
+		return j.tz + "|rules"
+	case "cal":
+		if len(t) < 3 {
+			return ""
+		}
+		return j.tz + "|cal|" + t[2]
+	case "zone":
+		if t[1] == "set" || t[1] == "export" || t[1] == "list" {
+			return ""
+		}
+		return fmt.Sprintf("%s|zone|%d", j.tz, j.ctx)
+	}
+	return ""
+}
+
+func envInt(name string, def int) int {
+	if v, err := strconv.Atoi(os.Getenv(name)); err == nil && v >= 0 {
+		return v
+	}
+	return def
+}
+
+var (
+	stormEvery = envInt("ORACLE_STORM_EVERY", 4) // every n-th window is asked again concurrently; 0 = never
+	stormG     = envInt("ORACLE_STORM_G", 4)
+	stormPid   = func() string {
+		if v := os.Getenv("ORACLE_PID"); v != "" {
+			return v
+		}
+		return "C00"
+	}()
+)
+
+// inStorm: several goroutines are asking at the moment. Handlers then leave the process-wide
+// configuration alone (it was set for the whole group by stormPrepare, on one goroutine:
+// configuration switches are not what is asked concurrently).
+var inStorm bool
+
+func stormPrepare(j *job) bool {
+	switch j.toks[0] {
+	case "cal":
+		c, ok := calCfgs[j.toks[2]]
+		if !ok {
+			return false
+		}
+		c.setup()
+	case "zone":
+		return j.ctx == zoneEpoch // the zone header of these requests is still the current one
+	}
+	return true
+}
+
+// number of zone headers answered so far
+var zoneEpoch int
+
+type stormAns struct {
+	resp  string
+	props []string
+}
+
+// ask the jobs of one key again, from stormG goroutines at once. heavy = the window took long when
+// asked alone: every request is then asked once more (by one of the goroutines); otherwise every
+// goroutine asks every request, each starting at a different place, again and again for a third of a
+// millisecond (calls that take nanoseconds would otherwise hardly ever overlap). Each goroutine keeps
+// its answers to itself while the others are running: no lock of the harness orders the calls.
+func stormGroup(js []*job, heavy bool) [][]stormAns {
+	g := stormG
+	if g < 2 {
+		g = 2
+	}
+	local := make([][][]stormAns, g)
+	var wg sync.WaitGroup
+	start := make(chan struct{})
+	for w := 0; w < g; w++ {
+		wg.Add(1)
+		local[w] = make([][]stormAns, len(js))
+		go func(w int) {
+			defer wg.Done()
+			mine := local[w]
+			<-start
+			n := len(js)
+			t0 := time.Now()
+			for pass := 0; pass < 200; pass++ {
+				for k := 0; k < n; k++ {
+					i := (k + w*n/g) % n
+					if heavy && i%g != w {
+						continue
+					}
+					r, p := answer(js[i].toks)
+					if l := len(mine[i]); l > 0 && mine[i][l-1].resp == r && len(p) == 0 && len(mine[i][l-1].props) == 0 {
+						continue // the same answer as last time
+					}
+					if len(mine[i]) < 8 {
+						mine[i] = append(mine[i], stormAns{r, p})
+					}
+				}
+				if heavy || time.Since(t0) > 300*time.Microsecond {
+					break
+				}
+			}
+		}(w)
+	}
+	inStorm = true
+	close(start)
+	wg.Wait()
+	inStorm = false
+	res := make([][]stormAns, len(js))
+	for w := 0; w < g; w++ {
+		for i := range js {
+			res[i] = append(res[i], local[w][i]...)
+		}
+	}
+	return res
+}
+
+func propTexts(props []string) map[string]bool {
+	m := map[string]bool{}
+	for _, p := range props {
+		if strings.HasPrefix(p, "!PROP ") {
+			m[p] = true
+		}
+	}
+	return m
+}
+
+// compare the concurrent answers with the answers given alone
+func stormCompare(js []*job, res [][]stormAns, order string) {
+	for i, j := range js {
+		alone := propTexts(j.props)
+		for _, a := range res[i] {
+			if a.resp != j.resp {
+				if len(j.extra) < 2 {
+					j.extra = append(j.extra, fmt.Sprintf("!PROP %s concurrent-callers: the request answered %q when %d goroutines were asking the %d requests of its window at the same time, %q when asked alone (%s)",
+						stormPid, a.resp, stormG, len(js), j.resp, order))
+				}
+				continue
+			}
+			for _, p := range a.props {
+				if strings.HasPrefix(p, "!PROP ") && !alone[p] && len(j.extra) < 2 {
+					j.extra = append(j.extra, p+fmt.Sprintf(" [only when %d goroutines were asking the requests of its window at the same time; %s]", stormG, order))
+				}
+			}
+		}
+	}
+}
+
+func storm(win []*job, heavy bool, order string) {
+	groups := map[string][]*job{}
+	var keys []string
+	for _, j := range win {
+		k := stormKey(j)
+		if k == "" {
+			continue
+		}
+		if _, ok := groups[k]; !ok {
+			keys = append(keys, k)
+		}
+		groups[k] = append(groups[k], j)
+	}
+	for _, k := range keys {
+		js := groups[k]
+		if !setTZ(js[0].tz) || !stormPrepare(js[0]) {
+			continue
+		}
+		if order == "concurrent first" {
+			// the answers alone are not known yet: keep the concurrent ones, compare afterwards.
+			// One call per request is what matters here (who touches a lazily built table first).
+			if len(js) > 16 {
+				js = js[:16]
+			}
+			for i, r := range stormGroup(js, true) {
+				pending[js[i]] = r
+			}
+			continue
+		}
+		if len(js) == 1 {
+			js = []*job{js[0], js[0]} // one request: asked by several goroutines at once all the same
+			res := stormGroup(js, false)
+			stormCompare(js[:1], [][]stormAns{append(res[0], res[1]...)}, order)
+			continue
+		}
+		stormCompare(js, stormGroup(js, heavy), order)
+	}
+}
+
+var pending = map[*job][]stormAns{}
+
+const windowSize = 64
+
 func main() {
 	log.SetOutput(io.Discard) // the library logs configuration switches
 	in := bufio.NewReaderSize(os.Stdin, 1<<20)
 	out := bufio.NewWriterSize(os.Stdout, 1<<20)
 	defer out.Flush()
-	for {
-		line, err := in.ReadString('\n')
-		if len(line) == 0 && err != nil {
+	eof := false
+	for wi := 0; !eof; wi++ {
+		var win []*job
+		for len(win) < windowSize {
+			line, err := in.ReadString('\n')
+			if len(line) == 0 && err != nil {
+				eof = true
+				break
+			}
+			win = append(win, parseJob(strings.TrimRight(line, "\r\n")))
+			if err != nil {
+				eof = true
+				break
+			}
+		}
+		if len(win) == 0 {
 			break
 		}
-		line = strings.TrimRight(line, "\r\n")
-		toks := strings.Split(line, " ")
-		h, ok := handlers[toks[0]]
-		var resp string
-		var props []string
-		if !ok {
-			resp = "bad-request"
-		} else {
-			resp, props = safeCall(h, toks[1:])
+		// a window that sets up process state of the harness (zone header, registry or table switches)
+		// keeps its order: such windows are asked concurrently only after they were asked alone
+		if wi == 0 && stormEvery > 0 {
+			stateful := false
+			for _, j := range win {
+				if stormKey(j) == "" {
+					stateful = true
+				}
+			}
+			if !stateful {
+				storm(win, false, "concurrent first")
+			}
 		}
-		if len(props) > 0 {
-			fmt.Fprintf(out, "%s\t%s\n", resp, strings.Join(props, "\t"))
-		} else {
-			fmt.Fprintln(out, resp)
+		t0 := time.Now()
+		for _, j := range win {
+			if !setTZ(j.tz) {
+				j.resp = "bad-request"
+				continue
+			}
+			j.ctx = zoneEpoch
+			j.resp, j.props = answer(j.toks)
+			if len(j.toks) > 1 && j.toks[0] == "zone" && j.toks[1] == "set" {
+				zoneEpoch++
+			}
 		}
-		if err != nil {
-			break
+		heavy := time.Since(t0) > 30*time.Millisecond
+		if len(pending) > 0 {
+			for _, j := range win {
+				if r, ok := pending[j]; ok {
+					stormCompare([]*job{j}, [][]stormAns{r}, "asked concurrently as the first calls of the process, then alone")
+				}
+			}
+			pending = map[*job][]stormAns{}
 		}
+		if stormEvery > 0 && wi%stormEvery == stormEvery-1 {
+			storm(win, heavy, "asked alone first, then concurrently")
+		}
+		for _, j := range win {
+			props := append(j.props, j.extra...)
+			if len(props) > 0 {
+				fmt.Fprintf(out, "%s\t%s\n", j.resp, strings.Join(props, "\t"))
+			} else {
+				fmt.Fprintln(out, j.resp)
+			}
+		}
+		out.Flush()
 	}
 }
